@@ -183,15 +183,11 @@ class GenericCallAdapter(Adapter):
         # keyword arguments
         result_kwargs = {}
         for kw in old_node.keywords:
-            if (
-                kw.arg in new_kwargs
-                and new_kwargs[kw.arg].is_default
-                and isinstance(self.argument(old_value, kw.arg), Unmanaged)
-            ):
-                # unmanaged values are never changed
-                continue
-
             if kw.arg not in new_kwargs or new_kwargs[kw.arg].is_default:
+                if isinstance(self.argument(old_value, kw.arg), Unmanaged):
+                    # unmanaged values are never changed
+                    continue
+
                 # delete entries
                 yield Delete(
                     (
